@@ -179,6 +179,32 @@ int __wrap_pthread_mutex_unlock(pthread_mutex_t *m)
     return r;
 }
 
+/* With -Wl,--wrap=pthread_mutex_lock and the focus "lock", a library worker thread is delayed right BEFORE it takes a lock: the window
+   between a test made outside a critical section and the section that acts on it (check-then-act) is where this kind of race lives. */
+extern int __real_pthread_mutex_lock(pthread_mutex_t *) __attribute__((weak));
+int __wrap_pthread_mutex_lock(pthread_mutex_t *m)
+{
+    if (self_pnum >= 0 && FOCUS_PCT && !strcmp(FOCUS, "lock")) {
+	if (!prs) prs = PSEED * 2654435761u + (unsigned)(self_pnum + 2) * 40503u + 1u;
+	prs = prs * 1103515245u + 12345u;
+	if ((int) ((prs >> 16) % 100) < FOCUS_PCT) usleep(FOCUS_US);
+    }
+    /* focus "lockpair": a worker that arrives at a lock waits (FOCUS_US at most) for a second worker to arrive at the SAME lock, then both
+       go on together: whatever each of them tested before asking for the lock was tested against the same state */
+    if (self_pnum >= 0 && FOCUS_PCT && !strcmp(FOCUS, "lockpair")) {
+	static _Atomic(pthread_mutex_t *) GATE;
+	pthread_mutex_t *cur = atomic_load(&GATE);
+	if (cur == m) atomic_store(&GATE, (pthread_mutex_t *) 0);
+	else if (cur == 0) {
+	    int k;
+	    atomic_store(&GATE, m);
+	    for (k = 0; k < FOCUS_US / 10 && atomic_load(&GATE) == m; ++k) usleep(10);
+	    if (atomic_load(&GATE) == m) atomic_store(&GATE, (pthread_mutex_t *) 0);
+	}
+    }
+    return __real_pthread_mutex_lock(m);
+}
+
 /* ------------------------------------------------------------------ allocation tracking */
 #define TBL (1 << 16)
 static vrt_block_t tbl[TBL]; static pthread_mutex_t mlock = PTHREAD_MUTEX_INITIALIZER;
